@@ -99,11 +99,24 @@ static void ring_read_vector(ringbuffer_t *ring, ring_t *r, bool lookahead)
     }
 }
 
+//does the readable region start with "#bundle"?
+static bool ring_bundle_p(const ring_t *r)
+{
+    const char *tag = "#bundle";
+    for(size_t i=0; i<8; ++i) {
+        const char c = i < r[0].len ? r[0].data[i] :
+            (i-r[0].len < r[1].len ? r[1].data[i-r[0].len] : 1);
+        if(c != tag[i])
+            return false;
+    }
+    return true;
+}
+
 ThreadLink::ThreadLink(size_t max_message_length, size_t max_messages)
     :MaxMsg(max_message_length),
     BufferSize(MaxMsg*max_messages),
-    write_buffer(new char[MaxMsg]),
-    read_buffer(new char[MaxMsg]),
+    write_buffer(new char[MaxMsg+4]), //(+4: the zero word that ends a bundle)
+    read_buffer(new char[MaxMsg+4]),
     ring(new ringbuffer_t)
 {
     ring->buffer         = new char[BufferSize];
@@ -111,8 +124,8 @@ ThreadLink::ThreadLink(size_t max_message_length, size_t max_messages)
     ring->read           = 0;
     ring->read_lookahead = 0;
     ring->write          = 0;
-    memset(write_buffer, 0, MaxMsg);
-    memset(read_buffer, 0, MaxMsg);
+    memset(write_buffer, 0, MaxMsg+4);
+    memset(read_buffer, 0, MaxMsg+4);
 }
 
 ThreadLink::~ThreadLink(void)
@@ -148,9 +161,12 @@ void ThreadLink::writeArray(const char *dest, const char *args, const rtosc_arg_
 void ThreadLink::raw_write(const char *msg)
 {
     const size_t len = rtosc_message_length(msg, -1);//assumed valid
+    //a bundle carries no length: it ends at the zero word behind it (that is
+    //how len was found), so the word travels with it and frames it in the ring
+    const size_t tail = (len && rtosc_bundle_p(msg)) ? 4 : 0;
     //messages longer than MaxMsg would overflow read_buffer in read()
-    if(len <= MaxMsg && ring_write_size(ring) >= len)
-        ring_write(ring,msg,len);
+    if(len <= MaxMsg && ring_write_size(ring) >= len+tail)
+        ring_write(ring,msg,len+tail);
 }
 
 /**
@@ -188,7 +204,9 @@ msg_t ThreadLink::read(bool lookahead) {
         rtosc_message_ring_length(r);
     assert(ring_read_size(ring, lookahead) >= len);
     assert(len <= MaxMsg);
-    ring_read(ring, read_buffer, len, lookahead);
+    //the zero word that ends a bundle is consumed together with the bundle
+    const size_t tail = (len && ring_bundle_p(r)) ? 4 : 0;
+    ring_read(ring, read_buffer, len+tail, lookahead);
     return read_buffer;
 }
 
